@@ -154,7 +154,12 @@ impl Write for DBFile {
     }
 
     fn write(&mut self, buf: &[u8]) -> io::Result<usize> {
-        self.f.write(buf)
+        #[cfg(feature = "verif")]
+        let offset = self.f.stream_position()?;
+        let n = self.f.write(buf)?;
+        #[cfg(feature = "verif")]
+        crate::verif::iotap::record(&self.p, crate::verif::iotap::Kind::Write(offset, buf[..n].to_vec()));
+        Ok(n)
     }
 }
 
@@ -180,6 +185,9 @@ impl FileOperations for DBFile {
             .bypass_cache(true) // This is basically O_DIRECT. Forces the writes directly to SSD instead of being buffered by the OS cache
             .sync_on_write(false) // This is O_DSYNC (not used for now)
             .open(&path)?;
+
+        #[cfg(feature = "verif")]
+        crate::verif::iotap::record(path.as_ref(), crate::verif::iotap::Kind::SetLen(0));
 
         Ok(Self {
             f,
@@ -208,11 +216,17 @@ impl FileOperations for DBFile {
 
     // truncate the file to 0 len
     fn truncate(&mut self) -> io::Result<()> {
-        self.f.set_len(0)
+        self.f.set_len(0)?;
+        #[cfg(feature = "verif")]
+        crate::verif::iotap::record(&self.p, crate::verif::iotap::Kind::SetLen(0));
+        Ok(())
     }
 
     // sync the file to disk
     fn sync_all(&self) -> io::Result<()> {
-        File::sync_all(&self.f)
+        File::sync_all(&self.f)?;
+        #[cfg(feature = "verif")]
+        crate::verif::iotap::record(&self.p, crate::verif::iotap::Kind::Sync);
+        Ok(())
     }
 }
